@@ -1,5 +1,26 @@
-"""C11 — engine `app` (see appcommon.py / apporacles.py and coq/Props/C11.v)."""
+"""C11 — rejected transactions and read-only calls leave no trace: engine `app` (appcommon.py / apporacles.py,
+coq/Props/C11.v) plus the CheckTx/Simulate/Query-interleaved replay of every history."""
+import os
 import appcommon, apporacles
 
+
+def readonly_traffic(v, out, hists, cov):
+    byid = {h["id"]: h for h in hists}
+    n = bad = 0
+    for l in open(os.path.join(out, "app.det")):
+        hid, variant, rest = l.rstrip("\n").split(" ", 2)
+        if variant != "interleaved":
+            continue
+        n += 1
+        if rest != "same":
+            bad += 1
+            h = byid.get(hid)
+            v.violation({"engine": "app", "kind": "read-only-call-changed-state"},
+                        "interleaving CheckTx / Simulate / Query with history %s changed a later response or app hash: %s" % (hid, rest[:300]),
+                        {"history": (h["header"] + [o[0] for o in h["ops"]] + ["E"]) if h else [], "difference": rest})
+    cov["interleaved_replays"] = n
+    cov["interleaved_replays_diverged"] = bad
+
+
 def run(a):
-    return appcommon.run(a, "C11", set("ASVIPQGMWBR"), apporacles.c11, "rejected transaction left a trace")
+    return appcommon.run(a, "C11", set("ASVIPQGMWBR"), apporacles.c11, "rejected transaction left a trace", extra=readonly_traffic)
